@@ -335,7 +335,7 @@ inductive Cls where
   | pt | dir | arr | edgeData | curve | face | op | shape | any
   deriving DecidableEq, Repr
 
-def Cls.admits : Cls → VEnt → Bool
+def Cls.accepts : Cls → VEnt → Bool
   | .pt, .pt _ => true
   | .dir, .dir _ => true
   | .arr, .arr _ => true
@@ -400,12 +400,12 @@ def matchSlots : List Slot → List VEnt → Bool
   | [], es => es.isEmpty
   | s :: ss, es =>
       if s.star then
-        let n := (es.takeWhile s.cls.admits).length
+        let n := (es.takeWhile s.cls.accepts).length
         decide (s.lo ≤ n) && (match s.hi with | some m => decide (n ≤ m) | none => true) &&
-          matchSlots ss (es.dropWhile s.cls.admits)
+          matchSlots ss (es.dropWhile s.cls.accepts)
       else
         match es with
-        | e :: rest => s.cls.admits e && matchSlots ss rest
+        | e :: rest => s.cls.accepts e && matchSlots ss rest
         | [] => false
 
 /-- the classes an entity of kind `k` may belong to -/
